@@ -71,10 +71,13 @@ def check(ctx):
             for g in [f] + ctx.prog.closures_of(f):
                 wm = an.sites(g, Call(r"may_queue::mpsc_list_v1::Entry::with_mut_data", transitive=False), "must")
                 rm = an.sites(g, Call(r"may_queue::mpsc_list_v1::Entry::remove", transitive=False), "may")
-                if wm and rm:
+                if rm:
+                    # every body that unlinks a taken entry nulls it first (a body that only unlinks leaves the newest entry of a list armed)
                     r2 = an.reach(g, [Point(0, 0)], blocked=wm)
                     bad2 = [x for x in rm if x in r2]
-                    ctx.ob("R-SIB", f.id, "taker/null-then-remove", not bad2, "the entry is nulled before it is unlinked/dropped", g.where(sorted(wm)[0]))
+                    ctx.ob("R-SIB", f.id, "taker/null-then-remove", bool(wm) and not bad2, "the entry is nulled before it is unlinked/dropped" if wm and not bad2 else
+                           "%s unlinks a taken timer entry without nulling its event_data first: Entry::remove() does nothing for the newest entry of an interval list, the entry stays armed and its "
+                           "expiry fails a later operation on the socket early" % g.id, g.where(sorted(wm or rm)[0]))
     # del_fd
     DF = SEL + "::del_fd"
     ctx.order(DF, TIMER_ACCESS, Call(r"nix::sys::epoll::Epoll::delete", transitive=False), "del-fd/disarm-then-deregister", "a closed socket's timer is disarmed before the fd is deregistered")
